@@ -1,6 +1,7 @@
 /-
   C13 — Table scan and iterators: each member once, in ID order, sound protocol.
 -/
+import CSD.Lemmas.RPDAC2
 import CSD.Generated.Bodies
 import CSD.Model.SourceText
 import CSD.Lemmas.PFCIter
@@ -36,6 +37,18 @@ theorem id_iterator_protocol (left right : Nat) (h1 : 1 ≤ left) (h2 : left ≤
   ⟨IdIter.contig_drain left right h1 h2 h3, IdIter.contig_empty⟩
 
 example : validDict [[0x61], [0x61, 0x62], [0x62]] = true := by decide
+
+/-- RPDAC table scan (`IteratorDictStringRPDAC`: for ID 1, 2, …, n: DAC access, expansion of every
+symbol): the strings come out in ID order and are the dictionary — for any grammar representing it. -/
+theorem rpdac_table_scan (d : RPDAC.D) (S : List Str) (r : RPDAC.Represents d S) :
+    (List.range S.length).map (fun i => RPDAC.extract d (i + 1)) = S.map (fun s => some (RPDAC.bytesNat s)) := by
+  apply List.ext_getElem
+  · simp
+  · intro i h1 h2
+    have hi : i < S.length := by simpa using h1
+    simp only [List.getElem_map, List.getElem_range]
+    rw [RPDAC.extract_represents d S r (i + 1), dif_pos ⟨by omega, by omega⟩]
+    simp
 
 /-- The models this file's theorems are about were written against the current text of the C++
 functions they mirror (`CSD/Generated/Bodies.lean` is re-extracted from the sources on every run,
